@@ -152,6 +152,23 @@ theorem vpvmAndvpovm_fst_degenerate (s : HydroP) (Tp Tm : ℝ) (h : s.eHighT Tp 
 theorem vpvmAndvpovm_snd (s : HydroP) (Tp Tm : ℝ) :
     (vpvmAndvpovm s Tp Tm).2 = (s.eLowT Tm + s.pHighT Tp) / (s.eHighT Tp + s.pLowT Tm) := rfl
 
+/-- The two conservation laws across the wall for the state `(vp, vm, Tp, Tm)`:
+energy flux `w γ² v` and momentum flux `w γ² v² + p` agree in front of (High, `+`) and behind
+(Low, `-`) the wall. -/
+def Conservation (s : HydroP) (vp vm Tp Tm : ℝ) : Prop :=
+  energyFlux (s.wHighT Tp) vp = energyFlux (s.wLowT Tm) vm ∧
+    momentumFlux (s.wHighT Tp) (s.pHighT Tp) vp = momentumFlux (s.wLowT Tm) (s.pLowT Tm) vm
+
+/-- `HydroP`-level form of `junction_iff_conservation_alg`. -/
+theorem junction_iff_conservation_hydro (s : HydroP) (hs : EOSOK s) (Tp Tm vp vm : ℝ)
+    (hvp : vp ^ 2 ≠ 1) (hvm : vm ^ 2 ≠ 1) (hvm0 : vm ≠ 0)
+    (hC : s.eHighT Tp ≠ s.eLowT Tm) (hD : s.eHighT Tp + s.pLowT Tm ≠ 0) :
+    (vp * vm = (vpvmAndvpovm s Tp Tm).1 ∧ vp / vm = (vpvmAndvpovm s Tp Tm).2) ↔
+      Conservation s vp vm Tp Tm := by
+  unfold Conservation
+  rw [vpvmAndvpovm_fst s Tp Tm hC, vpvmAndvpovm_snd, hs.w_high, hs.w_low]
+  exact junction_iff_conservation_alg hvp hvm hvm0 hC hD
+
 /-- The rescaling factor `c` used in `matchDeflagOrHyb.matching`. -/
 noncomputable def scaleC (Tpm Tpm0 : ℝ × ℝ) : ℝ :=
   ((((2 : ℝ) ^ 2) + ((Tpm.1 / Tpm0.1) ^ 2)) + ((Tpm.2 / Tpm0.2) ^ 2)) *
@@ -281,7 +298,7 @@ theorem vpsqLTE_entropy {Tp Tm vmsq : ℝ} (hTp : Tp ≠ 0) (hTm : Tm ≠ 0) :
   · field_simp
 
 /-- Conversely the entropy-flux identity determines `v₊²` (for `v₋² ≠ 1`). -/
-theorem vpsqLTE_unique {Tp Tm vmsq x : ℝ} (hTp : Tp ≠ 0) (hTm : Tm ≠ 0) (hv : vmsq ≠ 1)
+theorem vpsqLTE_unique {Tp Tm vmsq x : ℝ} (hTm : Tm ≠ 0) (hv : vmsq ≠ 1)
     (hx : x ≠ 1) (h : Tp ^ 2 / (1 - x) = Tm ^ 2 / (1 - vmsq)) : x = vpsqLTE Tp Tm vmsq := by
   unfold vpsqLTE
   have h1 : 1 - x ≠ 0 := sub_ne_zero.mpr (Ne.symm hx)
